@@ -17,7 +17,8 @@
    A function defined at the top level may CAPTURE DATA VARIABLES of the module and read them (by reference: it sees
    the module's later assignments), directly and through the functions it calls.
    NOT yet proved: function literals inside blocks / functions, `modify` writes through a captured variable,
-   first-class function values, calls in the UPPER bound or the step of a from loop (the lower bound may contain calls).
+   first-class function values, calls in the upper bound of a from loop with a NAMED counter or in a step (lower bounds, and upper bounds of loops
+   with a hidden counter, may contain calls).
    Those are covered by the T1/T2/T3 correspondences on every run.
 
    What else is proved and pinned here:
